@@ -49,7 +49,7 @@ class Recorder:
             raise PermissionError(1, "injected: operation not permitted")
 
 
-def run_startup(mode, usechroot, setuid, setgid, tls, fail_at):
+def run_startup(mode, usechroot, setuid, setgid, tls, fail_at, detach=False, euid=0):
     """-> (trace, outcome, final root, server-returned?)"""
     import grp
     import pwd
@@ -74,6 +74,9 @@ def run_startup(mode, usechroot, setuid, setgid, tls, fail_at):
         if hasattr(os, extra):
             patch(os, extra, (lambda n: (lambda *a: rec.call(n, *a)))(extra))
     patch(os, "setpgrp", lambda: rec.call("setpgrp"))
+    patch(os, "fork", lambda: (rec.call("fork"), 0)[1])  # detach: we are the child
+    patch(os, "geteuid", lambda: euid)
+    patch(os, "getuid", lambda: euid)
     patch(pwd, "getpwnam", lambda n: (rec.call("getpwnam", n), ("x", "x", UID, GID, "", "/", "/bin/false"))[1])
     patch(grp, "getgrnam", lambda n: (rec.call("getgrnam", n), ("x", "x", GID, []))[1])
     o_bind = socketserver.TCPServer.server_bind
@@ -115,7 +118,7 @@ def run_startup(mode, usechroot, setuid, setgid, tls, fail_at):
         c.set("pygopherd", "port", "0")
         c.set("pygopherd", "interface", "127.0.0.1")
         c.set("pygopherd", "servertype", "ThreadingTCPServer")
-        c.set("pygopherd", "detach", "no")
+        c.set("pygopherd", "detach", "yes" if detach else "no")
         c.set("pygopherd", "pidfile", os.path.join(root, "pid"))
         c.set("pygopherd", "usechroot", "yes" if usechroot else "no")
         c.set("logger", "logmethod", "none")
@@ -249,40 +252,44 @@ def _cases():
     for mode in ("security", "initialize"):
         for usechroot, setuid, setgid in itertools.product((False, True), repeat=3):
             for tls in ((False,) if mode == "security" else (False, True)):
-                out.append((mode, usechroot, setuid, setgid, tls))
+                for detach in ((False,) if mode == "security" else (False, True)):
+                    for euid in (0, 1000):
+                        out.append((mode, usechroot, setuid, setgid, tls, detach, euid))
     return out
 
 
 def _shard(shard, seed, tier):
     part = core.Partial()
-    for mode, usechroot, setuid, setgid, tls in shard:
-        trace, outcome, final_root, got, docroot = run_startup(mode, usechroot, setuid, setgid, tls, None)
+    for mode, usechroot, setuid, setgid, tls, detach, euid in shard:
+        trace, outcome, final_root, got, docroot = run_startup(mode, usechroot, setuid, setgid, tls, None, detach, euid)
         names = [t[0] for t in trace]
         faults = [None]
         seen = {}
         for n in names:
+            if n == "chdir" and not usechroot:
+                continue  # the chdir of a detaching daemon is no privileged step
             if n in PRIV or n in ENV:
                 k = seen.get(n, 0)
                 seen[n] = k + 1
                 faults.append((n, k))
         for fa in faults:
             if fa is not None:
-                trace, outcome, final_root, got, docroot = run_startup(mode, usechroot, setuid, setgid, tls, fa)
+                trace, outcome, final_root, got, docroot = run_startup(mode, usechroot, setuid, setgid, tls, fa, detach, euid)
             bad = judge(mode, usechroot, setuid, setgid, tls, fa, trace, outcome, final_root, got, docroot)
             part.evaluations += 1
             part.transitions += len(trace)
-            part.state(mode, usechroot, setuid, setgid, tls, fa)
-            part.outcome(mode, usechroot, setuid, setgid, tls, fa[0] if fa else None, tuple(b[0] for b in bad))
+            part.state(mode, usechroot, setuid, setgid, tls, fa, detach, euid)
+            part.outcome(mode, usechroot, setuid, setgid, tls, fa[0] if fa else None, tuple(b[0] for b in bad), detach, euid)
             part.sample({"mode": mode, "usechroot": usechroot, "setuid": setuid, "setgid": setgid, "tls": tls, "fault": fa, "trace": [list(map(str, t)) for t in trace]}, limit=2)
             for cls, det in bad:
-                part.violation("%s|chroot=%d|uid=%d|gid=%d|tls=%d|fault=%s|%s" % (mode, usechroot, setuid, setgid, tls, "%s#%d" % fa if fa else "none", cls), det,
-                               {"mode": mode, "usechroot": usechroot, "setuid": setuid, "setgid": setgid, "tls": tls, "fault": list(fa) if fa else None})
+                part.violation("%s|chroot=%d|uid=%d|gid=%d|tls=%d|detach=%d|euid=%d|fault=%s|%s" % (mode, usechroot, setuid, setgid, tls, detach, euid, "%s#%d" % fa if fa else "none", cls), det,
+                               {"mode": mode, "usechroot": usechroot, "setuid": setuid, "setgid": setgid, "tls": tls, "fault": list(fa) if fa else None, "detach": detach, "euid": euid})
     return part
 
 
 def replay(case):
     fa = tuple(case["fault"]) if case["fault"] else None
-    trace, outcome, final_root, got, docroot = run_startup(case["mode"], case["usechroot"], case["setuid"], case["setgid"], case["tls"], fa)
+    trace, outcome, final_root, got, docroot = run_startup(case["mode"], case["usechroot"], case["setuid"], case["setgid"], case["tls"], fa, case.get("detach", False), case.get("euid", 0))
     bad = judge(case["mode"], case["usechroot"], case["setuid"], case["setgid"], case["tls"], fa, trace, outcome, final_root, got, docroot)
     return bad[0] if bad else None
 
